@@ -1,8 +1,218 @@
-import BrushVerif.Model.Wire
-/-! Driver for C14 (stub until the property's model exists). -/
+import BrushVerif.Model.Print
+/-! Driver for C14: `C14 <function tree in prefix form>` → `P=<esc printed text>` (see tools/c14gen.py `wire`). -/
 namespace BrushVerif.Drv.C14
-open BrushVerif.Wire
+open BrushVerif.Wire BrushVerif.Print
 
-def handle (_toks : List Str) : Str := "unimplemented".toList
+abbrev Rd (α : Type) := List Str → Option (α × List Str)
+
+def rdWord : Rd Str
+  | ('=' :: w) :: ts => some (unesc w, ts)
+  | _ => none
+
+def rdOpt : Rd (Option Str)
+  | ['-'] :: ts => some (none, ts)
+  | ('=' :: w) :: ts => some (some (unesc w), ts)
+  | _ => none
+
+def rdNat : Rd Nat
+  | t :: ts => (parseNat? t).map (fun n => (n, ts))
+  | _ => none
+
+def rdWords : Nat → Rd (List Str)
+  | 0, ts => some ([], ts)
+  | n + 1, ts => do
+    let (w, ts) ← rdWord ts
+    let (ws, ts) ← rdWords n ts
+    pure (w :: ws, ts)
+
+def optStr : Option Str → Str
+  | none => []
+  | some s => s
+
+mutual
+partial def rdRedir : Rd Redir
+  | ['r','f'] :: ts => do
+    let (fd, ts) ← rdOpt ts
+    let (kind, ts) ← rdWord ts
+    match ts with
+    | ['t','w'] :: ts => do
+      let (w, ts) ← rdWord ts
+      pure (.file fd kind w, ts)
+    | ['t','p'] :: dir :: ts => do
+      let (l, ts) ← rdItems ts
+      pure (.filePs fd kind dir l, ts)
+    | _ => none
+  | ['r','o'] :: app :: ts => do
+    let (w, ts) ← rdWord ts
+    pure (.outErr (app = ['1']) w, ts)
+  | ['r','s'] :: ts => do
+    let (fd, ts) ← rdOpt ts
+    let (w, ts) ← rdWord ts
+    pure (.hereStr fd w, ts)
+  | ['r','h'] :: ts => do
+    let (fd, ts) ← rdOpt ts
+    match ts with
+    | strip :: ts => do
+      let (d, ts) ← rdWord ts
+      let (b, ts) ← rdWord ts
+      pure (.hereDoc fd (strip = ['1']) d b, ts)
+    | _ => none
+  | _ => none
+partial def rdRedirsN : Nat → Rd Redirs
+  | 0, ts => some (.nil, ts)
+  | n + 1, ts => do
+    let (r, ts) ← rdRedir ts
+    let (rs, ts) ← rdRedirsN n ts
+    pure (.cons r rs, ts)
+partial def rdRedirs : Rd Redirs := fun ts => do
+  let (n, ts) ← rdNat ts
+  rdRedirsN n ts
+partial def rdSItem : Rd SItem
+  | ['w'] :: ts => do let (w, ts) ← rdWord ts; pure (.word w, ts)
+  | ['a'] :: ts => do let (w, ts) ← rdWord ts; pure (.word w, ts)
+  | ['r'] :: ts => do let (r, ts) ← rdRedir ts; pure (.redir r, ts)
+  | ['p','s'] :: dir :: ts => do let (l, ts) ← rdItems ts; pure (.procSub dir l, ts)
+  | _ => none
+partial def rdSItemsN : Nat → Rd SItems
+  | 0, ts => some (.nil, ts)
+  | n + 1, ts => do
+    let (i, ts) ← rdSItem ts
+    let (is, ts) ← rdSItemsN n ts
+    pure (.cons i is, ts)
+partial def rdSItems : Rd SItems := fun ts => do
+  let (n, ts) ← rdNat ts
+  rdSItemsN n ts
+partial def rdCmd : Rd Cmd
+  | ['S'] :: ts => do
+    let (pre, ts) ← rdSItems ts
+    let (name, ts) ← rdOpt ts
+    let (suf, ts) ← rdSItems ts
+    pure (.simple pre name suf, ts)
+  | ['C'] :: ts => do
+    let (c, ts) ← rdCompound ts
+    let (rs, ts) ← rdRedirs ts
+    pure (.comp c rs, ts)
+  | ['D'] :: ts => do
+    let (name, ts) ← rdWord ts
+    let (c, ts) ← rdCompound ts
+    let (rs, ts) ← rdRedirs ts
+    pure (.fdef name c rs, ts)
+  | _ => none
+partial def rdCmdsN : Nat → Rd Cmds
+  | 0, ts => some (.nil, ts)
+  | n + 1, ts => do
+    let (c, ts) ← rdCmd ts
+    let (cs, ts) ← rdCmdsN n ts
+    pure (.cons c cs, ts)
+partial def rdPipeline : Rd Pipeline
+  | ['P'] :: timed :: bang :: ts => do
+    let t ← parseNat? timed
+    let (n, ts) ← rdNat ts
+    let (c, ts) ← rdCmd ts
+    let (cs, ts) ← rdCmdsN (n - 1) ts
+    pure (.mk t (bang = ['1']) c cs, ts)
+  | _ => none
+partial def rdAOsN : Nat → Rd AOs
+  | 0, ts => some (.nil, ts)
+  | n + 1, op :: ts => do
+    let (p, ts) ← rdPipeline ts
+    let (r, ts) ← rdAOsN n ts
+    pure (.cons (op = "&&".toList) p r, ts)
+  | _, _ => none
+partial def rdItemsN : Nat → Rd Items
+  | 0, ts => some (.nil, ts)
+  | n + 1, ['A'] :: ts => do
+    let (k, ts) ← rdNat ts
+    let (p, ts) ← rdPipeline ts
+    let (more, ts) ← rdAOsN k ts
+    match ts with
+    | sep :: ts => do
+      let (tail, ts) ← rdItemsN n ts
+      pure (.cons p more (sep = ['&']) tail, ts)
+    | _ => none
+  | _, _ => none
+partial def rdItems : Rd Items
+  | ['L'] :: ts => do
+    let (n, ts) ← rdNat ts
+    rdItemsN n ts
+  | _ => none
+partial def rdCaseItemsN : Nat → Rd CaseItems
+  | 0, ts => some (.nil, ts)
+  | n + 1, ts => do
+    let (k, ts) ← rdNat ts
+    let (pats, ts) ← rdWords k ts
+    let (hasBody, body, ts) ← (match ts with
+      | ['-'] :: ts => some (false, Items.nil, ts)
+      | ts => (rdItems ts).map (fun (l, ts) => (true, l, ts)))
+    match ts with
+    | post :: ts => do
+      let (rest, ts) ← rdCaseItemsN n ts
+      let pn := if post = ";;".toList then 0 else if post = ";&".toList then 1 else 2
+      pure (.cons pats hasBody body pn rest, ts)
+    | _ => none
+partial def rdElsesN : Nat → Rd Elses
+  | 0, ts => some (.nil, ts)
+  | n + 1, ts => do
+    let (hasCond, cond, ts) ← (match ts with
+      | ['-'] :: ts => some (false, Items.nil, ts)
+      | ts => (rdItems ts).map (fun (l, ts) => (true, l, ts)))
+    let (body, ts) ← rdItems ts
+    let (rest, ts) ← rdElsesN n ts
+    pure (.cons hasCond cond body rest, ts)
+partial def rdCompound : Rd Compound
+  | ['c','a'] :: ts => do let (e, ts) ← rdWord ts; pure (.arith e, ts)
+  | ['c','f'] :: ts => do
+    let (i, ts) ← rdOpt ts
+    let (c, ts) ← rdOpt ts
+    let (u, ts) ← rdOpt ts
+    let (l, ts) ← rdItems ts
+    pure (.afor (optStr i) (optStr c) (optStr u) l, ts)
+  | ['c','b'] :: ts => do let (l, ts) ← rdItems ts; pure (.brace l, ts)
+  | ['c','s'] :: ts => do let (l, ts) ← rdItems ts; pure (.sub l, ts)
+  | ['c','o'] :: ts => do
+    let (v, ts) ← rdWord ts
+    match ts with
+    | ['-'] :: ts => do
+      let (l, ts) ← rdItems ts
+      pure (.forIn v false [] l, ts)
+    | ts => do
+      let (n, ts) ← rdNat ts
+      let (ws, ts) ← rdWords n ts
+      let (l, ts) ← rdItems ts
+      pure (.forIn v true ws l, ts)
+  | ['c','c'] :: ts => do
+    let (w, ts) ← rdWord ts
+    let (n, ts) ← rdNat ts
+    let (items, ts) ← rdCaseItemsN n ts
+    pure (.case w items, ts)
+  | ['c','i'] :: ts => do
+    let (cond, ts) ← rdItems ts
+    let (thn, ts) ← rdItems ts
+    let (n, ts) ← rdNat ts
+    let (elses, ts) ← rdElsesN n ts
+    pure (.ifC cond thn elses, ts)
+  | ['c','w'] :: ts => do
+    let (c, ts) ← rdItems ts
+    let (b, ts) ← rdItems ts
+    pure (.whileC false c b, ts)
+  | ['c','u'] :: ts => do
+    let (c, ts) ← rdItems ts
+    let (b, ts) ← rdItems ts
+    pure (.whileC true c b, ts)
+  | ['c','p'] :: ts => do
+    let (name, ts) ← rdOpt ts
+    let (c, ts) ← rdCmd ts
+    pure (.coproc name c, ts)
+  | ['c','t'] :: ts => do
+    let (n, ts) ← rdNat ts
+    let (ws, ts) ← rdWords n ts
+    pure (.test ws, ts)
+  | _ => none
+end
+
+def handle (toks : List Str) : Str :=
+  match rdCmd toks with
+  | some (.fdef name c rs, []) => "P=".toList ++ esc (printFn name c rs)
+  | _ => "bad-request".toList
 
 end BrushVerif.Drv.C14
